@@ -87,7 +87,7 @@ def main():
                 sh("git -C /repo checkout -- .")
         results.append(rec)
         json.dump(results, open(args.out, "w"), indent=1)
-        print(name, {k: v["exit"] for k, v in rec["checks"].items()}, rec.get("compiles"), rec.get("unit_tests_pass"), flush=True)
+        print(name, rec.get("error") or {k: v["exit"] for k, v in rec["checks"].items()}, rec.get("compiles"), rec.get("unit_tests_pass"), flush=True)
     # evidence files were overwritten by runs on mutated trees: they must be regenerated on the clean tree
     print("NOTE: re-run the affected checks on the clean tree before committing evidence/")
     return 0
